@@ -19,15 +19,16 @@ Definition map_res {S T A} (f : S -> T) (r : res S A) : res T A :=
    inner reader with the same argument, and the relation is kept *)
 Theorem chain_sim buf w : map_res abs_chain (chain_read R1 R2 buf w) = std_chain_read R1 R2 buf (abs_chain w).
 Proof.
-  unfold chain_read, std_chain_read, abs_chain. unfold bind at 1. unfold get_reader_is_some. cbn [sc_done_first sc_first sc_second].
+  unfold chain_read, std_chain_read, abs_chain. unfold bind at 1. unfold bind at 1. unfold get_reader_is_some. cbn [sc_done_first sc_first sc_second].
   destruct (c_has w) eqn:Eh; cbn [negb].
-  - unfold bind at 1. unfold bind at 1. unfold call_reader_read.
-    destruct (rd R1 (c_first w) buf) as [[d' n|k|] r'] eqn:E1; cbn [map_res]; try (rewrite Eh; reflexivity).
+  - unfold bind at 1. unfold call_reader_read.
+    destruct (rd R1 (c_first w) buf) as [[d' n|k|] r'] eqn:E1; cbn [map_res fst snd]; cbv zeta; try (rewrite Eh; reflexivity).
+    rewrite zlen_fit.
     destruct ((n =? 0) && negb (zlen buf =? 0)) eqn:Ec.
     + unfold bind at 1. unfold set_reader_none. cbn [c_has c_first c_rw ret]. unfold call_rw_read. cbn [c_has c_first c_rw].
       destruct (rd R2 (c_rw w) (fit d' buf)) as [[d2 n2|k2|] r2]; reflexivity.
     + cbn [ret map_res c_has c_first c_rw]. rewrite Eh. reflexivity.
-  - unfold bind at 1. cbn [ret]. unfold call_rw_read.
+  - cbn [ret]. unfold call_rw_read.
     destruct (rd R2 (c_rw w) buf) as [[d2 n2|k2|] r2]; cbn [map_res c_has c_first c_rw]; rewrite Eh; reflexivity.
 Qed.
 
@@ -41,7 +42,7 @@ Theorem chain_second_waits buf w : c_has w = true ->
 Proof.
   intros Hh. unfold chain_read, bind, get_reader_is_some, call_reader_read. rewrite Hh.
   destruct (rd R1 (c_first w) buf) as [[d' n|k|] r'] eqn:E1; [|cbn; auto|exact I].
-  - intros Hn. replace ((n =? 0) && negb (zlen buf =? 0)) with false; [cbn; auto|].
+  - intros Hn. cbn [fst snd]. cbv zeta. rewrite zlen_fit. replace ((n =? 0) && negb (zlen buf =? 0)) with false; [cbn; auto|].
     destruct Hn as [Hn|Hn]; [replace (n =? 0) with false by lia; reflexivity|rewrite Hn; cbn; symmetry; apply andb_false_r].
 Qed.
 Theorem chain_first_never_again buf w : c_has w = false ->
@@ -95,10 +96,10 @@ Proof.
   intros Hr. unfold take_read. unfold bind at 1. unfold get_remaining_bytes.
   destruct (t_rem w =? 0) eqn:E0; [reflexivity|].
   unfold bind at 1. cbv zeta. pose proof (zlen_nonneg buf) as Hb.
-  unfold slice_chk. replace ((0 <=? Z.min (t_rem w) (zlen buf)) && (Z.min (t_rem w) (zlen buf) <=? zlen buf)) with true
+  replace ((0 <=? Z.min (t_rem w) (zlen buf)) && (Z.min (t_rem w) (zlen buf) <=? zlen buf)) with true
     by (symmetry; apply andb_true_iff; lia).
-  unfold bind at 1. cbn [ret]. unfold bind at 1. unfold tcall_rw_read.
-  destruct (rd R2 (t_rw w) (slice buf 0 (Z.min (t_rem w) (zlen buf)))) as [[d' n|k|] r']; try reflexivity.
+  unfold bind at 1. cbn [assert_ ret]. unfold bind at 1. unfold tcall_rw_read.
+  destruct (rd R2 (t_rw w) (slice buf 0 (Z.min (t_rem w) (zlen buf)))) as [[d' n|k|] r']; cbn [fst snd]; try reflexivity.
   unfold bind at 1. cbn [t_rem t_rw]. unfold usub. unfold bind at 1.
   destruct (n <=? t_rem w); [reflexivity|]. destruct chk; reflexivity.
 Qed.
